@@ -148,6 +148,18 @@ def run_graph_case(case: dict) -> dict:
                     "chunkfuncs": [f if isinstance(f, str) else "callable" for f in d["func"]],
                     "out": project_ir(out, raw_kind),
                 })
+            elif kd == "blockwise" and not _rs_blockwise(d["reindex"]) and d.get("expected") is None:
+                a = store[deps[0]]
+                b = store[deps[1]]
+                agg = d["agg"]
+                blk = int(k[-1]) if isinstance(k, tuple) else 0
+                vals = [pv(x) for x in np.asarray(a).reshape(-1)]
+                codes = [int(x) for x in np.asarray(b).reshape(-1).tolist()]
+                tasks.append({
+                    "kind": "blockwise", "k": kid(k), "agg": sched.project_agg(agg), "vals": vals, "codes": codes,
+                    "p": {"sort": bool(d.get("sort", True)), "start": int(sum(case["chunks"][:blk]))},
+                    "out": project_final(out, agg.name, raw_kind, func),
+                })
             elif kd == "subset":
                 tasks.append({
                     "kind": "subset", "k": kid(k), "agg": sched.project_agg(d["agg"]),
